@@ -101,9 +101,10 @@ CHECKS = {
             "Each run regenerates, from go/ssa, the stores to package-level state and the lock operations reachable from Lint*Ex and the registry read API and the kernel checks there are none / only read-mode ones. "
             "Explored: goroutines linting their own objects against shared registries while readers call the registry API, compared with sequential results; thorough builds the harness with -race and varies G and GOMAXPROCS.",
             "DESIGN.md 5/C10", "The Go memory model, scheduler and runtime locks are outside the model; only the schedules actually run are covered for them."),
-    "C17": (True, "Coq theorems (permutation invariance of any-offender rules, of the three-way label evaluation, of OID lookup) + in-Coq correspondence of the seven DNS-label lints + DER-level permutation of SAN entries and extensions over all lints",
+    "C17": (True, "Coq theorems (permutation invariance of any-offender rules, of the three-way label evaluation, of fourteen fully modelled name-scanning lints, of OID lookup) + in-Coq correspondence of those 21 lints + DER-level permutation of SAN entries and extensions over all lints",
             "Proof (partial): a rule 'finding if some element offends, else NA if some element is unparseable, else pass' gives the same status on every permutation of the list; the seven DNS-label lints are modelled in that form and tied to the "
-            "code by correspondence (the public-suffix parser is an oracle); lookup by OID in a duplicate-free extension list is order independent; the pre-repair evaluation is refuted by a witness. Explored: all other lints - generated "
+            "code by correspondence (the public-suffix parser is an oracle); fourteen more name-scanning lints (label length, empty label, character set, wildcard placement, duplicates, NUL, leading period, name length ...) are modelled in full "
+            "(Kernels/Names.v) and all fourteen verdicts are proved invariant under every permutation of the SAN dNSNames; lookup by OID in a duplicate-free extension list is order independent; the pre-repair evaluation is refuted by a witness. Explored: all other lints - generated "
             "certificates with 2-4 SAN names of every type in every order and corpus certificates with SAN and extension lists reversed/shuffled, all status vectors compared.",
             "DESIGN.md 5/C17", "Re-ordering invalidates the signature: SelfSigned/ValidationLevel are carried over from the original when comparing."),
     "C20": (True, "Coq theorems per pair family (label pairs, URI-host pair as written, mirror rules, limit pairs) + in-Coq correspondence (URI host, limits) + dynamic monitor of all 23 pairs on same-content certificates",
@@ -111,10 +112,11 @@ CHECKS = {
             "and the pre-repair IAN copy is refuted; a limit lint's error implies its stricter companion's finding for every measured value; a mirror rule applied to equal fields gives equal answers. The other copies are tied to the code "
             "only through the pair monitor: generated SAN=IAN, issuer=subject, both-scope, boundary-validity and name-length certificates plus the corpus where a pair's precondition holds; every pair must be exercised.",
             "DESIGN.md 5/C20", "Most pair members are not modelled individually; agreement for them is explored, not proved."),
-    "C02": (True, "Coq theorems (fatal-origin for the framework; panic-freedom of the explicitText walker modelled with explicit out-of-range outcomes) + in-Coq walker correspondence + directed hostile inputs and structure-aware mutation through the three entry points",
+    "C02": (True, "Coq theorems (fatal-origin for the framework; panic-freedom of 11 rule bodies / helpers modelled with explicit out-of-range outcomes) + in-Coq correspondence of those bodies + directed hostile inputs, the certificate zoo and structure-aware mutation through the three entry points",
             "Proof (partial): a fatal result of a certificate lint is the body's own decision, a configuration error, or the report of a recovered panic, so panic-free lint code never yields the panic report; CRL/OCSP linting returns iff nothing panics; "
-            "the explicitText control-character walker never indexes out of range for any byte string (and without its bound check it does on [0xC2], the defect that was repaired). Explored: all other rule bodies - no Coq semantics of ~375 Go "
-            "bodies can be built here - by directed generation at the index/slice/type-assertion sites (hostile extension contents, name shapes) and structure-aware mutants of the corpus (30k in thorough), only inputs the parsers accept.",
+            "the explicitText control-character walker never indexes out of range for any byte string (and without its bound check it does on [0xC2], the defect that was repaired); the three GeneralizedTime lints, the three keyUsage-encoding lints, "
+            "the SCT-list lint, util.GetHost, util.GetAuthority and util.ParseBMPString (Kernels/Bodies.v, every index explicit) never index out of range - the time lints under the parser's length guard, refuted without it - and agree with the real code on ~8500 directly built inputs. "
+            "Explored: all other rule bodies - no Coq semantics of ~365 Go bodies can be built here - by directed generation at the index/slice/type-assertion sites (hostile extension contents, name shapes) and structure-aware mutants of the corpus (30k in thorough), only inputs the parsers accept.",
             "DESIGN.md 5/C02", "A parser that itself panics on a mutant counts as not accepting it. Coverage of risk sites is not measured (go build -cover join not built)."),
 }
 
